@@ -8,8 +8,8 @@ VERIF = os.path.abspath(os.path.join(HERE, "..", ".."))
 
 BASE_NOTE = ("Trusted base: Lean 4.33 kernel, Mathlib v4.33 as compiled on the image, axioms propext/Classical.choice/Quot.sound only "
              "(audited with #print axioms on every run; no native_decide, no bv_decide, no sorry, no own axioms); the Python-AST->Lean translator "
-             "(tools/translate) for Gen/*.lean, regenerated from /repo on every run — 202 of the 217 function/method definitions of py_ecc are translated "
-             "(COVERAGE.md lists every one); for 160 of them the property theorems are stated about the hand-written executable model (lean/PyEcc/Model) and "
+             "(tools/translate) for Gen/*.lean, regenerated from /repo on every run — 204 of the 217 function/method definitions of py_ecc are translated "
+             "(COVERAGE.md lists every one); for 162 of them the property theorems are stated about the hand-written executable model (lean/PyEcc/Model) and "
              "tie theorems Gen.f = Model.f (Props/Tie*.lean, audited with the property's own theorems) carry them to the generated definition; the model is "
              "additionally tied to /repo by the correspondence harness (tools/harness) on every run; CPython big-int arithmetic; hashlib/hmac. ")
 
